@@ -417,6 +417,40 @@ theorem requestValidate_ok {r : Request} {ms : Modules} (h : requestValidate r =
           · injection h with h; subst h; exact hm
           · cases h
 
+theorem validateRequest_spec (ms : Modules) (out bt : Str) :
+    Good (validateRequest ms out bt) ∧ (validateRequest ms out bt = .ok () → ModsOK ms.modules) := by
+  unfold validateRequest
+  constructor
+  · rw [good_bind]
+    refine ⟨validateBinaryTypes_good _, fun _ _ => ?_⟩
+    rw [good_bind]
+    exact ⟨(validateModules_spec ms).1, fun _ _ => validateModuleGraph_good _ _ _⟩
+  · intro h
+    obtain ⟨u1, _, h⟩ := bind_eq_ok.1 h
+    obtain ⟨u2, h3, _⟩ := bind_eq_ok.1 h
+    cases u2
+    exact (validateModules_spec ms).2 h3
+
+theorem requestValidateT2_good (r : T2Request) : Good (requestValidateT2 r) := by
+  unfold requestValidateT2
+  repeat' split
+  all_goals simp
+
+theorem validateTier2Request_spec (r : T2Request) :
+    Good (validateTier2Request r) ∧ ∀ ms, validateTier2Request r = .ok ms → ModsOK ms.modules := by
+  unfold validateTier2Request
+  constructor
+  · rw [good_bind]
+    refine ⟨requestValidateT2_good r, fun ms _ => ?_⟩
+    rw [good_bind]
+    exact ⟨(validateRequest_spec ms _ _).1, fun _ _ => by simp⟩
+  · intro ms h
+    obtain ⟨ms', _, h⟩ := bind_eq_ok.1 h
+    obtain ⟨u, h2, h⟩ := bind_eq_ok.1 h
+    injection h with h; subst h
+    cases u
+    exact (validateRequest_spec ms' _ _).2 h2
+
 theorem validateTier1Request_spec (r : Request) (bt : Str) :
     Good (validateTier1Request r bt) ∧
     ∀ ms, validateTier1Request r bt = .ok ms → r.modules = some ms ∧ ModsOK ms.modules := by
